@@ -69,6 +69,20 @@ CLAIMED['C04'] = dict(
          'accepted limit changes; overlapping limit changes make the verdict DONTCARE.',
     design='6/C04')
 
+CLAIMED['C11'] = dict(
+    level='exploration',
+    text='Seeded search over 2..4 caller threads x request mixes (equal/distinct keys, unknown actions, unique id per '
+         'request) against a scripted SECoP peer (reply order and delay up to beyond the time-out, error replies, '
+         'updates, unsolicited replies, garbage, half lines) with peer close/reset/black hole, refused reconnects '
+         'and user disconnect at arbitrary points, pre-empting the real SecopClient/AsynTcp threads at lock '
+         'operations and line events of client/__init__.py. Checked per caller: own reply or error, no duplicate '
+         'delivery, wait bounded, release on loss with a connection error; disconnect() returns without raising, '
+         'no worker thread left.',
+    note='Trusted: simulation kernel, simulated TCP, scripted peer. Replies sent after the owner gave up and unknown '
+         'actions mixed with unsolicited replies are exempt (SECoP has no request ids). Known findings: the '
+         'connect()/disconnect() races after a second connection (known_findings.json).',
+    design='6/C11')
+
 NOT_APPLICABLE = {
     'C01': 'pure function of (datatype, candidate, previous) - no schedule, clock, I/O or fault dimension for a simulator to decide',
     'C02': 'pure round-trip law over (datatype, value) - no schedule, clock, I/O or fault dimension',
